@@ -670,7 +670,12 @@ static void mode_rand(long configs,long reqs,vt::rng &rnd)
 }
 
 // ------------------------------------------------------------------ mount points / applications pool
-class leaf_app : public cppcms::application { public: leaf_app(cppcms::service &s) : cppcms::application(s) {} };
+// every mounted application carries the id of its mount so that the pool a look-up returns can be identified
+class leaf_app : public cppcms::application {
+public:
+	leaf_app(cppcms::service &s,int t=0) : cppcms::application(s), tag(t) {}
+	int tag;
+};
 struct MP { std::string sel; bool hh,hs,hp; Pat host,script,path; int grp; unsigned rxv; };
 static std::string jopt(bool has,Pat const &p,unsigned rxv) { return has ? "{\"els\":"+jpat(p)+",\"re\":"+jstr(regex_text(p,rxv))+"}" : "{\"nil\":true}"; }
 static Pat host_pat(vt::rng &rnd)
@@ -684,66 +689,144 @@ static Pat host_pat(vt::rng &rnd)
 	}
 	return p;
 }
+static std::string jmp(MP const &m)
+{
+	return "{\"sel\":\""+m.sel+"\",\"host\":"+jopt(m.hh,m.host,m.rxv)+",\"script\":"+jopt(m.hs,m.script,m.rxv)+",\"path\":"+jopt(m.hp,m.path,m.rxv)+",\"grp\":"+itos(m.grp)+"}";
+}
+static cppcms::mount_point real_mp(MP const &m)
+{
+	return cppcms::mount_point(m.sel=="path"?cppcms::mount_point::match_path_info:cppcms::mount_point::match_script_name,
+		m.hh?booster::regex(regex_text(m.host,m.rxv)):booster::regex(),
+		m.hs?booster::regex(regex_text(m.script,m.rxv)):booster::regex(),
+		m.hp?booster::regex(regex_text(m.path,m.rxv)):booster::regex(),m.grp);
+}
+static const char *SCRIPTS[]={"","/app","/app2","/ap","/app/x","/a","/ab"};
+static MP rnd_mp(vt::rng &rnd)
+{
+	MP m; m.rxv=rnd(4); m.sel=rnd(3)?"path":"script"; m.hh=rnd(2); m.hs=rnd(2); m.hp=rnd(4)!=0;
+	if(m.hh) m.host=host_pat(rnd);
+	bool selpath=m.sel=="path";
+	if(m.hs) { m.script = selpath ? Pat(1,L(SCRIPTS[1+rnd(6)])) : rnd_pat(rnd,rnd(2)); }
+	if(m.hp) { m.path = selpath ? rnd_pat(rnd,rnd(2)) : rnd_pat(rnd,false); }
+	Pat const &sp = selpath ? m.path : m.script;
+	bool hsel = selpath ? m.hp : m.hs;
+	m.grp = (hsel && rnd(2)) ? (int)rnd(ngroups(sp)+1) : 0;
+	return m;
+}
+// overlapping mount points: prefixes of one path (/api/v1/users, /api/v1, /api, catch-all), different group
+// selections, optionally a host pattern; the languages are nested, so the registration order decides
+static MP nested_mp(std::vector<std::string> const &segs,vt::rng &rnd,bool on_script)
+{
+	MP m; m.rxv=rnd(4); m.sel=on_script?"script":"path"; m.hh=rnd(4)==0; m.hs=false; m.hp=false; m.grp=0;
+	if(m.hh) m.host=host_pat(rnd);
+	Pat p; size_t k=rnd(segs.size()+1);
+	if(k==0) { if(rnd(2)) { p.push_back(G("any")); } }            // catch-all: (.*) or no pattern at all
+	else { std::string lit; for(size_t i=0;i<k;i++) lit+=segs[i]; p.push_back(L(lit)); p.push_back(G("rest")); }
+	bool has=!p.empty();
+	if(on_script) { m.hs=has; m.script=p; } else { m.hp=has; m.path=p; }
+	if(has && rnd(3)) m.grp=ngroups(p);
+	return m;
+}
+static cppcms::json::value g_cfgjson;
+
+struct PMount {
+	int id; std::string kind,api; MP mp; bool gone,got;
+	booster::shared_ptr<cppcms::application_specific_pool> pool;      // known for pool mounts (or once a look-up returned it)
+	booster::intrusive_ptr<leaf_app> obj;                             // legacy asynchronous application object
+};
 static void mode_pool(long configs,long reqs,vt::rng &rnd)
 {
 	static const char *hosts[]={"www.example.com","x.example.com","example.com","www.example.com.evil","a.org","b.org","ab.org","a.orgx","wwwXexample.com",""};
-	static const char *scripts[]={"","/app","/app2","/ap","/app/x","/a","/ab"};
 	for(long ci=0;ci<configs;ci++) {
-		size_t n=1+rnd(4);
-		std::vector<MP> mps; std::vector<booster::shared_ptr<cppcms::application_specific_pool> > pools;
-		std::string s="{\"e\":\"Pool\",\"mps\":[";
-		for(size_t i=0;i<n;i++) {
-			MP m; m.rxv=rnd(4); m.sel=rnd(3)?"path":"script"; m.hh=rnd(2); m.hs=rnd(2); m.hp=rnd(4)!=0;
-			if(m.hh) m.host=host_pat(rnd);
-			bool selpath=m.sel=="path";
-			if(m.hs) { m.script = selpath ? Pat(1,L(scripts[1+rnd(6)])) : rnd_pat(rnd,rnd(2)); }
-			if(m.hp) { m.path = selpath ? rnd_pat(rnd,rnd(2)) : rnd_pat(rnd,false); }
-			Pat const &sp = selpath ? m.path : m.script;
-			bool hsel = selpath ? m.hp : m.hs;
-			m.grp = (hsel && rnd(2)) ? (int)rnd(ngroups(sp)+1) : 0;
-			mps.push_back(m);
-			if(i) s+=",";
-			s+="{\"sel\":\""+m.sel+"\",\"host\":"+jopt(m.hh,m.host,m.rxv)+",\"script\":"+jopt(m.hs,m.script,m.rxv)+",\"path\":"+jopt(m.hp,m.path,m.rxv)+",\"grp\":"+itos(m.grp)+"}";
-			cppcms::mount_point mp(selpath?cppcms::mount_point::match_path_info:cppcms::mount_point::match_script_name,
-				m.hh?booster::regex(regex_text(m.host,m.rxv)):booster::regex(),
-				m.hs?booster::regex(regex_text(m.script,m.rxv)):booster::regex(),
-				m.hp?booster::regex(regex_text(m.path,m.rxv)):booster::regex(),m.grp);
-			booster::shared_ptr<cppcms::application_specific_pool> pl=cppcms::create_pool<leaf_app>();
-			g_srv->applications_pool().mount(pl,mp,cppcms::app::asynchronous);
-			pools.push_back(pl);
-		}
-		tr.line("{\"e\":\"Reset\"}");
-		tr.line(s+"]}"); n_cfg++;
-		for(long r=0;r<reqs;r++) {
-			MP const &m=mps[rnd(mps.size())];
+		// a fresh service per configuration: legacy mounts cannot be unmounted
+		cppcms::service srv(g_cfgjson);
+		cppcms::applications_pool &ap=srv.applications_pool();
+		std::vector<PMount> ms;
+		bool nested=rnd(2); bool on_script=nested && rnd(4)==0;
+		std::vector<std::string> segs; { size_t ns=2+rnd(2); for(size_t i=0;i<ns;i++) segs.push_back(std::string("/")+VOC[rnd(8)]); }
+		tr.line("{\"e\":\"Reset\"}"); n_cfg++;
+		size_t planned=2+rnd(5);
+		int legacy_bias=rnd(3);       // 0: mostly pool mounts, 1: mixed, 2: mostly legacy objects
+		for(long r=0;r<reqs || ms.size()<planned;r++) {
+			// ---- registration / unmount / destruction, interleaved with the look-ups
+			bool do_mount = ms.size()<planned && (ms.size()<2 || rnd(6)==0 || r>=reqs);
+			if(do_mount) {
+				PMount m; m.id=ms.size()+1; m.gone=false; m.got=false;
+				m.mp = nested ? nested_mp(segs,rnd,on_script) : rnd_mp(rnd);
+				unsigned k=rnd(6);
+				bool leg = legacy_bias==2 ? k<5 : (legacy_bias==1 ? k<3 : k<1);
+				cppcms::mount_point mp=real_mp(m.mp);
+				if(leg) {
+					m.kind="legacy"; m.api="object";
+					m.obj=new leaf_app(srv,m.id);
+					ap.mount(booster::intrusive_ptr<cppcms::application>(m.obj.get()),mp);
+				}
+				else {
+					m.kind="pool";
+					switch(rnd(4)) {
+					case 0: m.api="pool-async"; m.pool=cppcms::create_pool<leaf_app>(m.id); ap.mount(m.pool,mp,cppcms::app::asynchronous); break;
+					case 1: m.api="pool-sync"; m.pool=cppcms::create_pool<leaf_app>(m.id); ap.mount(m.pool,mp,cppcms::app::synchronous); break;
+					case 2: m.api="pool-sync-tls"; m.pool=cppcms::create_pool<leaf_app>(m.id); ap.mount(m.pool,mp,cppcms::app::synchronous|cppcms::app::thread_specific); break;
+					default: m.api="factory"; ap.mount(cppcms::applications_factory<leaf_app>(m.id),mp); break;
+					}
+				}
+				tr.line("{\"e\":\"PMount\",\"id\":"+itos(m.id)+",\"kind\":\""+m.kind+"\",\"api\":\""+m.api+"\",\"mp\":"+jmp(m.mp)+"}");
+				ms.push_back(m);
+				continue;
+			}
+			if(rnd(12)==0) {
+				// destroy a legacy application that has served a request / unmount a pool we hold
+				std::vector<size_t> cand;
+				for(size_t i=0;i<ms.size();i++) if(!ms[i].gone && ((ms[i].kind=="legacy" && ms[i].got) || (ms[i].kind=="pool" && ms[i].pool))) cand.push_back(i);
+				if(!cand.empty()) {
+					PMount &m=ms[cand[rnd(cand.size())]];
+					if(m.kind=="legacy") m.obj=booster::intrusive_ptr<leaf_app>(); else ap.unmount(m.pool);
+					m.gone=true;
+					tr.line("{\"e\":\"PGone\",\"id\":"+itos(m.id)+",\"how\":\""+(m.kind=="legacy"?"destroyed":"unmount")+"\"}");
+				}
+			}
+			// ---- a look-up
+			PMount const &t=ms[rnd(ms.size())];
+			MP const &m=t.mp;
 			std::string h = (m.hh && rnd(2)) ? sample_pat(m.host,rnd) : hosts[rnd(10)];
-			std::string sc = (m.hs && rnd(3)) ? sample_pat(m.script,rnd) : scripts[rnd(7)];
+			std::string sc = (m.hs && rnd(3)) ? sample_pat(m.script,rnd) : SCRIPTS[rnd(7)];
 			std::string p = (m.hp && rnd(3)) ? sample_pat(m.path,rnd) : std::string("/")+VOC[rnd(8)];
-			unsigned nm=rnd(4);
+			if(nested) {
+				// prefixes of the common path followed by a sub-path: several nested mount points match
+				std::string pre; size_t k=rnd(segs.size()+1); for(size_t i=0;i<k;i++) pre+=segs[i];
+				static const char *sub[]={"","/","/users","/x/1","x"};
+				std::string *dst = on_script ? &sc : &p;
+				*dst=pre+sub[rnd(5)];
+				if(m.hh && rnd(3)) h=sample_pat(m.host,rnd);
+			}
+			unsigned nm=rnd(nested?8:4);
 			if(nm==0) { switch(rnd(3)) { case 0: h=edit(h,rnd); break; case 1: sc=edit(sc,rnd); break; default: p=edit(p,rnd); } }
 			else if(nm==1) {
 				// everything in the languages of this mount point, then ONE part gets a line end appended:
 				// host / non-selected part / selected part (group 0 or not) must all be matched entirely
 				h = m.hh ? sample_pat(m.host,rnd) : hosts[rnd(10)];
-				sc = m.hs ? sample_pat(m.script,rnd) : scripts[rnd(7)];
+				sc = m.hs ? sample_pat(m.script,rnd) : SCRIPTS[rnd(7)];
 				p = m.hp ? sample_pat(m.path,rnd) : std::string("/")+VOC[rnd(8)];
 				static const char *nl[]={"\n","\r\n","\nx","\n/a"};
-				std::string *t[3]={&h,&sc,&p}; bool has[3]={m.hh,m.hs,m.hp};
+				std::string *tt[3]={&h,&sc,&p}; bool has[3]={m.hh,m.hs,m.hp};
 				int w=rnd(3); for(int k=0;k<3 && !has[w];k++) w=(w+1)%3;
-				*t[w]+=nl[rnd(4)];
+				*tt[w]+=nl[rnd(4)];
 			}
 			std::string matched;
-			booster::shared_ptr<cppcms::application_specific_pool> pl=g_srv->applications_pool().get_application_specific_pool(h.c_str(),sc.c_str(),p.c_str(),matched);
-			int idx=0; for(size_t i=0;i<pools.size();i++) if(pools[i]==pl) idx=i+1;
-			// the same question asked to the single mount point object
-			std::pair<bool,std::string> d(false,"");
-			if(idx) { cppcms::mount_point mp2(m.sel=="path"?cppcms::mount_point::match_path_info:cppcms::mount_point::match_script_name,
-				m.hh?booster::regex(regex_text(m.host,m.rxv)):booster::regex(), m.hs?booster::regex(regex_text(m.script,m.rxv)):booster::regex(),
-				m.hp?booster::regex(regex_text(m.path,m.rxv)):booster::regex(),m.grp); d=mp2.match(h,sc,p); (void)d; }
+			booster::shared_ptr<cppcms::application_specific_pool> pl=ap.get_application_specific_pool(h.c_str(),sc.c_str(),p.c_str(),matched);
+			int idx=0;
+			if(pl) {
+				// which mount is it?  ask the pool for its application and read the tag
+				booster::intrusive_ptr<cppcms::application> a=pl->get(srv);
+				leaf_app *la=dynamic_cast<leaf_app *>(a.get());
+				idx = la ? la->tag : -1;
+				if(idx>0 && idx<=(int)ms.size()) { ms[idx-1].got=true; if(!ms[idx-1].pool && ms[idx-1].kind=="pool") ms[idx-1].pool=pl; }
+			}
 			n_req++;
 			tr.line("{\"e\":\"PReq\",\"h\":"+jbytes(h)+",\"s\":"+jbytes(sc)+",\"p\":"+jbytes(p)+",\"idx\":"+itos(idx)+",\"matched\":"+jbytes(idx?matched:"")+"}");
 		}
-		for(size_t i=0;i<pools.size();i++) g_srv->applications_pool().unmount(pools[i]);
+		// release the legacy applications before the service goes
+		for(size_t i=0;i<ms.size();i++) ms[i].obj=booster::intrusive_ptr<leaf_app>();
 	}
 }
 
@@ -760,6 +843,7 @@ int main(int argc,char **argv)
 		cfg["logging"]["level"]="emergency";
 		cfg["session"]["disable_automatic_load"]=true;
 		cfg["misc"]["invalid_url_throws"]=true;
+		g_cfgjson=cfg;
 		cppcms::service srv(cfg); g_srv=&srv;
 		booster::aio::io_service ios; g_ios=&ios;
 		if(mode=="fam") mode_fam(atoi(argv[2]),argc>3?atoi(argv[3]):0,argc>4?atoi(argv[4]):1);
